@@ -42,7 +42,7 @@ BUDGET = {"quick": {"examples": 500, "shards": 8}, "thorough": {"examples": 1200
 FLOORS = {"fallback": 0.15, "mixed_forms": 0.25, "supplied": 0.3}
 PORT = 6053
 
-LITERALS = ["10.0.0.5", "192.168.1.7", "fd00::1", "fe80::1%3", "::1", "2001:db8::2%12"]
+LITERALS = ["10.0.0.5", "192.168.1.7", "fd00::1", "fe80::1%3", "::1", "2001:db8::2%12", "fe80::6", "169.254.1.2"]
 LOCALS = ["kitchen", "bedroom", "kitchen.local", "porch.local.", "bedroom.local", "living_room", "living_room.local", "esp-01", "ESP32_a"]
 FQDNS = ["dev.example.com", "esp.lan", "a.b.c.org"]
 
@@ -379,6 +379,7 @@ MDNS_HANG = {"outcome": "hang"}
 MDNS_OUT = [
     {"outcome": "ok", "v4": ["10.1.0.1"]}, {"outcome": "ok", "v6": ["fd00::aa"]}, {"outcome": "ok", "v4": ["10.1.0.1", "10.1.0.2"], "v6": ["fd00::aa", "fe80::5%2"]},
     {"outcome": "none"}, {"outcome": "raise"}, {"outcome": "ok", "v4": [], "v6": []}, {"outcome": "ok", "v4": ["10.1.0.9"], "v6": ["fd00::a9"], "complete": True},
+    {"outcome": "ok", "v6": ["fe80::7"]}, {"outcome": "ok", "v4": ["10.1.0.3"], "v6": ["fe80::8", "fd00::ab"]},  # link-local without a zone
 ]
 DNS_OUT = [["ok", ["10.2.0.1"]], ["ok", ["fd00::bb", "10.2.0.2"]], ["ok", ["10.2.0.3", "10.2.0.4", "fd00::cc"]], ["empty"], ["error"], ["ok", ["fe80::9%4", "10.2.0.5"]], ["ok", ["fe80::a%12"]]]
 
